@@ -81,8 +81,4 @@ __CPROVER_ensures((g_ek < s->size && g_ek + 1 == s->size) ==> g_p1 == ret->size)
 __CPROVER_ensures(s->size == 0 ==> ret->size == g_base)
 __CPROVER_assigns(ret->size, __CPROVER_object_from(ret->data + ret->size), g_p0, g_p1, g_ech, C04_G, C04_C);   /* frame: the bytes below the old size are untouched */
 
-/* the string loop of JSON::parse is not put under a loop contract (see props/C04.py: induction step = l_string_step) */
-#define C04_STREAM_GHOSTS g_c04_dummy
-#define C04_STRING_LOOP_INV(r, data) (1 == 1)
-#define C04_STRING_LOOP_VARIANT(r, data) ((r)->length - (r)->offset)
 #endif
